@@ -185,3 +185,87 @@ Proof.
       rewrite (ccp_eta (2 ^ bd - 1) near 64).
       eexists. split; [|reflexivity]. unfold frame_of. cbn. auto.
 Qed.
+
+(* ---------- scan extraction ---------- *)
+
+(* a marker-free scan followed by EOI is extracted unchanged (both decoders) *)
+Lemma scan_bytes_packed : forall pk n bs,
+  (length bs <= n)%nat -> jls_marker_free bs = true ->
+  scan_bytes pk (bs ++ [255; 217]) = bs.
+Proof.
+  induction n as [|n IH]; intros bs Hlen Hmf.
+  - destruct bs; [reflexivity | cbn in Hlen; lia].
+  - destruct bs as [|b r]; [reflexivity|].
+    cbn [jls_marker_free] in Hmf. apply andb_true_iff in Hmf. destruct Hmf as [Hb Hr].
+    cbn [app scan_bytes].
+    destruct (Z.eqb_spec b 255) as [E|NE].
+    + destruct r as [|b2 r2]; [discriminate|]. cbn [app].
+      apply andb_true_iff in Hb. destruct Hb as [Hb0 Hb1]. apply Z.ltb_lt in Hb1. apply Z.leb_le in Hb0.
+      destruct (Z.ltb_spec b2 128); [|lia].
+      cbn [jls_marker_free] in Hr. apply andb_true_iff in Hr. destruct Hr as [_ Hr2].
+      rewrite (IH r2); [reflexivity | cbn in Hlen; lia | exact Hr2].
+    + rewrite (IH r); [reflexivity | cbn in Hlen; lia | exact Hr].
+Qed.
+
+(* the as-coded GolombWriter packs these ops like the bit-list packer *)
+Definition gw_pack_ok (ops : list wop) : Prop := gw_run ops = jls_pack (ops_bits ops).
+
+Lemma decode_scan_unfold : forall pk lim d p near rest,
+  decode_scan pk lim d p near rest =
+  if d_w d * d_h d * d_comps d >? lim then OutOfFuel else
+  match decode_scan_samples pk p (d_w d) (d_h d) (d_comps d) (jls_bits_of_bytes (scan_bytes pk rest)) with
+  | Ok pixels => Ok (mkDecoded (integersToPixels (d_bd d) (d_maxval d) pixels) (d_w d) (d_h d) (d_comps d) (d_bd d) near)
+  | Err => Err | Panic => Panic | OutOfFuel => OutOfFuel
+  end.
+Proof. reflexivity. Qed.
+
+(* the two encoders produce the same write ops at NEAR = 0 *)
+Lemma encode_scan_ops_near0 : forall P w h comps pixels,
+  2 <= P <= 16 -> Forall (in_range P) pixels ->
+  encode_scan_ops PkLossless (jls_params P 0) w h comps pixels =
+  encode_scan_ops PkNear (jls_params P 0) w h comps pixels.
+Proof.
+  intros P w h comps pixels HP Hr.
+  assert (Hn : 0 <= 0 <= near_max P).
+  { unfold near_max. pose proof (pow2_bounds P HP). assert (0 <= (2 ^ P - 1) / 2) by (apply Z.div_pos; lia). lia. }
+  assert (H0 : jp_near (jls_params P 0) = 0) by (destruct (jls_params_facts P 0 HP Hn); assumption).
+  unfold encode_scan_ops. destruct (comps >? 1).
+  - rewrite (enc_lines3_near0 _ H0). reflexivity.
+  - rewrite (enc_lines1_near0 P HP) by assumption. reflexivity.
+Qed.
+
+(* ---------- the decoders on an encoder stream ---------- *)
+
+Theorem stream_decode : forall epk dpk w h comps bd near pixels ops lim,
+  header_ok epk w h comps bd near -> near <= near_max bd ->
+  (dpk = PkLossless -> near = 0) ->
+  Forall (in_range bd) pixels -> zlen pixels = w * h * comps -> w * h * comps <= lim ->
+  encode_scan_ops epk (jls_params bd near) w h comps pixels = Ok ops ->
+  gw_pack_ok ops ->
+  exists recon,
+    decode_image dpk lim ([255; 216] ++ write_sof55 w h comps bd ++ write_sos comps near ++ gw_run ops ++ [255; 217]) =
+      Ok (mkDecoded (integersToPixels bd (2 ^ bd - 1) recon) w h comps bd near) /\
+    Forall2 (near_close near) pixels recon /\ Forall (in_range bd) recon.
+Proof.
+  intros epk dpk w h comps bd near pixels ops lim Hh Hnm Hd0 Hrng Hlen Hlim Henc Hgw.
+  pose proof Hh as [Hbd Hw Hhh Hc Hnear Hepk].
+  assert (Hnr : 0 <= near <= near_max bd) by lia.
+  (* the ops are also those of the decoder's own package *)
+  assert (Henc' : encode_scan_ops dpk (jls_params bd near) w h comps pixels = Ok ops).
+  { destruct epk, dpk; try exact Henc.
+    - simpl in Hepk. subst near. rewrite <- encode_scan_ops_near0 by assumption. exact Henc.
+    - specialize (Hd0 eq_refl). subst near. rewrite encode_scan_ops_near0 by assumption. exact Henc. }
+  assert (Hdpk : pk_ok dpk near) by (destruct dpk; [apply Hd0; reflexivity | exact I]).
+  destruct (scan_lockstep bd near dpk w h comps pixels ops Hbd Hnr Hdpk ltac:(lia) ltac:(lia) Hc Hrng Hlen Henc')
+    as (recon & Hrel & Hrr & Hdec).
+  destruct (decode_header epk dpk w h comps bd near (gw_run ops ++ [255; 217]) lim Hh Hd0)
+    as (d & (Fbd & Fw & Fh & Fc & Fmv) & Hhdr).
+  exists recon. split; [|split; assumption].
+  rewrite Hhdr, decode_scan_unfold. rewrite Fbd, Fw, Fh, Fc, Fmv.
+  destruct (Z.gtb_spec (w * h * comps) lim); [lia|].
+  rewrite Hgw.
+  destruct (jls_no_marker (ops_bits ops)) as [Hmf _].
+  rewrite (scan_bytes_packed dpk _ _ (le_n _) Hmf).
+  destruct (jls_stuff_unstuff (ops_bits ops)) as (pad & Hbits & _).
+  rewrite Hbits, Hdec. reflexivity.
+Qed.
